@@ -36,11 +36,20 @@ type tcase struct {
 	T    int       `json:"T"`
 	Pre  []mspec   `json:"pre"`
 	Post [][][]int `json:"post"`
+	// a second pass on the same store at instant T2 >= T (time passing is emulated by re-stamping every datum, with its
+	// own value, at the instant that lies as far before the second pass as the model says); Upd re-stamps one datum
+	// (metric index, label number, new model time) before it.  Judged by TLC against GcPost (Judge2), see c10.py.
+	Second *second `json:"second,omitempty"`
+}
+
+type second struct {
+	T2  int   `json:"T2"`
+	Upd []int `json:"upd,omitempty"`
 }
 
 func label(j int) string { return strings.Repeat("a", j) }
 
-func run(c *tcase) (got [][][]int, why string, err error) {
+func run(c *tcase) (got [][][]int, why string, sec map[string]any, err error) {
 	base := time.Now()
 	ts := func(t int) time.Time {
 		return base.Add(-time.Duration(c.T-t)*time.Hour + 30*time.Minute)
@@ -56,13 +65,13 @@ func run(c *tcase) (got [][][]int, why string, err error) {
 		m.Limit = sp.Limit
 		ms[k] = m
 		if err := s.Add(m); err != nil {
-			return nil, "", err
+			return nil, "", nil, err
 		}
 		for j0, d := range sp.Data {
 			j := j0 + 1
 			dd, err := m.GetDatum(label(j))
 			if err != nil {
-				return nil, "", err
+				return nil, "", nil, err
 			}
 			if typ == metrics.Int {
 				datum.SetInt(dd, int64(100+j), ts(d[0]))
@@ -71,16 +80,16 @@ func run(c *tcase) (got [][][]int, why string, err error) {
 			}
 			if d[1] > 0 {
 				if err := m.ExpireDatum(time.Duration(d[1])*time.Hour, label(j)); err != nil {
-					return nil, "", err
+					return nil, "", nil, err
 				}
 			}
 		}
 	}
 	if err := s.Gc(); err != nil {
-		return nil, "", err
+		return nil, "", nil, err
 	}
 	if since := time.Since(base); since > 20*time.Minute {
-		return nil, "", fmt.Errorf("case took %v: time mapping no longer valid", since)
+		return nil, "", nil, fmt.Errorf("case took %v: time mapping no longer valid", since)
 	}
 	// "nothing else in the store changes"
 	n := 0
@@ -136,7 +145,59 @@ func run(c *tcase) (got [][][]int, why string, err error) {
 			}
 		}
 	}
-	return got, why, nil
+	if c.Second != nil && why == "" {
+		sec, err = secondPass(c, s, ms, got)
+		if err != nil {
+			return nil, "", nil, err
+		}
+	}
+	return got, why, sec, nil
+}
+
+// secondPass re-stamps the surviving data for the instant T2, applies the optional update, runs Store.Gc again and
+// reports the store before and after in model terms.
+func secondPass(c *tcase, s *metrics.Store, ms []*metrics.Metric, after1 [][][]int) (map[string]any, error) {
+	base := time.Now()
+	T2 := c.Second.T2
+	ts := func(t int) time.Time { return base.Add(-time.Duration(T2-t)*time.Hour + 30*time.Minute) }
+	before := make([][][]int, len(ms))
+	for k, m := range ms {
+		before[k] = [][]int{}
+		for i, lv := range m.LabelValues {
+			d := append([]int(nil), after1[k][i]...) // label, time, expiry, value
+			if u := c.Second.Upd; len(u) == 3 && u[0] == k+1 && u[1] == d[0] {
+				d[1] = u[2]
+			}
+			if m.Type == metrics.Int {
+				datum.SetInt(lv.Value, int64(d[3]), ts(d[1]))
+			} else {
+				datum.SetFloat(lv.Value, float64(d[3]), ts(d[1]))
+			}
+			before[k] = append(before[k], d)
+		}
+	}
+	if err := s.Gc(); err != nil {
+		return nil, err
+	}
+	post := make([][][]int, len(ms))
+	limits := make([]int, len(ms))
+	for k, m := range ms {
+		limits[k] = m.Limit
+		post[k] = [][]int{}
+		for _, lv := range m.LabelValues {
+			j := len(lv.Labels[0])
+			t := -1000
+			for cand := -2; cand <= 40; cand++ {
+				if ts(cand).Equal(lv.Value.TimeUTC()) {
+					t = cand
+				}
+			}
+			v := -1
+			fmt.Sscanf(lv.Value.ValueString(), "%d", &v)
+			post[k] = append(post[k], []int{j, t, int(lv.Expiry / time.Hour), v})
+		}
+	}
+	return map[string]any{"T": T2, "limits": limits, "before": before, "post": post}, nil
 }
 
 func canon(v any) string {
@@ -152,9 +213,12 @@ func main() {
 			return err
 		}
 		n++
-		got, why, err := run(&c)
+		got, why, sec, err := run(&c)
 		if err != nil {
 			return err
+		}
+		if sec != nil {
+			vh.Out(map[string]any{"second": sec, "case": json.RawMessage(raw)})
 		}
 		if why == "" && canon(got) != canon(c.Post) {
 			why = "store after Gc is " + canon(got) + ", model says " + canon(c.Post)
